@@ -71,6 +71,39 @@ def h_verify_checksum(h: H):
                  pyops.bool_z(pyops.truth(val)) == (SHA(data.z) == exp.z))
 
 
+def h_compute_checksum(h: H):
+    """CHECKSUM: compute_checksum feeds exactly the given bytes, once, to the requested hash and returns its hex digest (T-hash:
+    hashlib.new(alg) / update / hexdigest = digest of the concatenation of the updates); unsupported algorithm => ValueError."""
+    c = h.ctx
+    H_ = z3.Function("hashlib.hexdigest", STR, STR, STR)
+    supported = c.flip("algorithm-supported")
+
+    def new(I, a, k):
+        if not supported:
+            raise PyRaise(SExc("ValueError", origin="hashlib.new: unsupported hash type", fields={"unsupported": True}))
+        return TheoryObj("hasher", fields={"alg": pyops.str_z(I.force(a[0])), "acc": z3.StringVal("")})
+
+    def update(I, o, a, k):
+        o.fields["acc"] = z3.Concat(o.fields["acc"], pyops.str_z(I.force(a[0])))
+        o.fields["updates"] = o.fields.get("updates", 0) + 1
+        return None
+    h.reg.modfuncs["hashlib.new"] = new
+    h.reg.theory_methods[("hasher", "update")] = update
+    h.reg.theory_methods[("hasher", "hexdigest")] = lambda I, o, a, k: SStr(H_(o.fields["alg"], o.fields["acc"]))
+    data = h.bytes("data")
+    default_alg = c.flip("default-algorithm")
+    alg = h.str("algorithm")
+    out, val = h.run("integrity:IntegrityChecker.compute_checksum", [data] if default_alg else [data, alg])
+    if not supported:
+        h.ensure("CHECKSUM:unsupported-algorithm=>ValueError", out == "raise" and val.cls == "ValueError", detail=repr(val))
+        return
+    h.ensure("CHECKSUM:compute_checksum-never-raises-for-a-supported-algorithm", out == "ok", detail=repr(val) if out != "ok" else "")
+    if out == "ok":
+        want_alg = z3.StringVal("sha256") if default_alg else alg.z
+        h.ensure("CHECKSUM:digest-of-exactly-the-given-bytes-under-the-requested-algorithm(sha256-by-default)",
+                 pyops.str_z(val) == H_(want_alg, data.z))
+
+
 # ----------------------------------------------------------------------------------------------- metadata file wrappers
 def h_metadata_file_io(h: H):
     st = Store(h)
@@ -267,7 +300,40 @@ def h_check_count(h: H):
         h.ensure("COUNT:the-error-is-a-ValueError(not-swallowed-by-the-JSON-fallback's-handler)", val.cls == "ValueError")
 
 
+def h_check_disk_space(h: H):
+    """DISK: check_disk_space returns None or raises OSError (IOError) - before write_file has created anything - and changes
+    nothing in the file system; too little free space always raises."""
+    from pyvc.theories.osfs import OsTheory
+    from pyvc.values import SXReal
+    c = h.ctx
+    os_t = OsTheory(h)
+    os_t.install(h.reg)
+    total, used, free = (SInt(c.fresh_int(n)) for n in ("disk_total", "disk_used", "disk_free"))
+    h.assume(z3.And(total.z >= 0, used.z >= 0, free.z >= 0, used.z <= total.z))
+    h.reg.modfuncs["shutil.disk_usage"] = lambda I, a, k: SObj("usage", {"total": total, "used": used, "free": free})
+    need = SInt(c.fresh_int("required_bytes"))
+    out, val = h.run("disk_utils:check_disk_space", [h.str("dir_path"), need])
+    mut = [e for e in os_t.events if e["op"] in ("remove", "replace", "os.write", "mkstemp", "makedirs", "open", "os.open", "rmdir", "utime")]
+    h.ensure("DISK:check_disk_space-changes-nothing", not mut, detail=repr([e["op"] for e in mut]))
+    if out == "raise":
+        h.ensure("DISK:raises-only-OSError", val.cls in ("OSError", "IOError"), detail=repr(val))
+    else:
+        h.ensure("DISK:returns-None-only-when-the-required-bytes-are-free", z3.And(free.z >= need.z), detail="free < required must raise")
+
+
+def h_estimate_write_size(h: H):
+    """DISK: estimate_write_size is a total function of the content length (never raises, non-negative)."""
+    c = h.ctx
+    data = h.bytes("data")
+    out, val = h.run("disk_utils:estimate_write_size", [data])
+    h.ensure("DISK:estimate_write_size-never-raises", out == "ok", detail=repr(val) if out != "ok" else "")
+    if out == "ok":
+        h.ensure("DISK:estimate-is-a-non-negative-int", pyops.int_z(val) >= 0)
+
+
 UNITS = {
+    "DISK/check_disk_space": (h_check_disk_space, ["disk_utils:check_disk_space", "disk_utils:get_disk_space"]),
+    "DISK/estimate_write_size": (h_estimate_write_size, ["disk_utils:estimate_write_size"]),
     "COUNT/recorded_manifest_count": (h_recorded_manifest_count, ["file_manager:recorded_manifest_count"]),
     "COUNT/expected_entry_count": (h_expected_entry_count, [f"{FM}:FileManager.expected_entry_count"]),
     "COUNT/_check_count": (h_check_count, [f"{FM}:FileManager._check_count"]),
@@ -275,6 +341,7 @@ UNITS = {
     "NAME-RT/legacy-name": (h_name_roundtrip("legacy-name"), [f"{MM}:MetadataManager._parse_hint_content"]),
     "NAME-RT/bare-number": (h_name_roundtrip("bare-number"), [f"{MM}:MetadataManager._parse_hint_content"]),
     "HELPER/verify_checksum": (h_verify_checksum, ["integrity:IntegrityChecker.verify_checksum"]),
+    "HELPER/compute_checksum": (h_compute_checksum, ["integrity:IntegrityChecker.compute_checksum"]),
     "HELPER/metadata-file-io": (h_metadata_file_io, [f"{MM}:MetadataManager._write_metadata_file", f"{MM}:MetadataManager._read_metadata_file"]),
     "HELPER/_deep_copy_metadata": (h_deep_copy, [f"{TX}:Transaction._deep_copy_metadata"]),
     "HELPER/validate_data_files": (h_validate_data_files, [f"{FM}:FileManager.validate_data_files"]),
